@@ -187,25 +187,25 @@ func envOr(k, d string) string {
 }
 
 type harnessSummary struct {
-	Name        string         `json:"name"`
-	Doc         string         `json:"doc,omitempty"`
-	Instances   int            `json:"instances"`
-	Paths       int            `json:"paths"`
-	Steps       int            `json:"ssa_instructions_interpreted"`
-	Queries     int            `json:"solver_queries"`
-	Sat         int            `json:"sat"`
-	Unsat       int            `json:"unsat"`
-	Unknown     int            `json:"unknown"`
-	SolverS     float64        `json:"solver_s"`
-	WallS       float64        `json:"wall_s"`
-	Params      map[string]string `json:"bounds"`
-	Asserts     map[string]int `json:"assertions_discharged"`
-	Notes       map[string]int `json:"notes,omitempty"`
-	Reached     []string       `json:"reach_witnesses"`
-	Ends        map[string]int `json:"path_ends"`
-	Summarized  []string       `json:"summarised_callees,omitempty"`
-	Contracts   []string       `json:"contracts,omitempty"`
-	GlobalWr    []string       `json:"global_writes,omitempty"`
+	Name       string            `json:"name"`
+	Doc        string            `json:"doc,omitempty"`
+	Instances  int               `json:"instances"`
+	Paths      int               `json:"paths"`
+	Steps      int               `json:"ssa_instructions_interpreted"`
+	Queries    int               `json:"solver_queries"`
+	Sat        int               `json:"sat"`
+	Unsat      int               `json:"unsat"`
+	Unknown    int               `json:"unknown"`
+	SolverS    float64           `json:"solver_s"`
+	WallS      float64           `json:"wall_s"`
+	Params     map[string]string `json:"bounds"`
+	Asserts    map[string]int    `json:"assertions_discharged"`
+	Notes      map[string]int    `json:"notes,omitempty"`
+	Reached    []string          `json:"reach_witnesses"`
+	Ends       map[string]int    `json:"path_ends"`
+	Summarized []string          `json:"summarised_callees,omitempty"`
+	Contracts  []string          `json:"contracts,omitempty"`
+	GlobalWr   []string          `json:"global_writes,omitempty"`
 }
 
 func (g *Engine) checkProperty(prop string, hs []*Harness, tier string, seed int, opts RunOpts, replay bool, t0 time.Time, writeEv bool) int {
@@ -369,26 +369,26 @@ func (g *Engine) checkProperty(prop string, hs []*Harness, tier string, seed int
 			"wall_s":      wall,
 			"violations":  confirmed,
 			"coverage": map[string]interface{}{
-				"states":                        totalPaths,
-				"transitions":                   totalQueries,
-				"traces_validated_against_impl": validated + witnessOK,
+				"states":                         totalPaths,
+				"transitions":                    totalQueries,
+				"traces_validated_against_impl":  validated + witnessOK,
 				"reach_witnesses_rerun_natively": witnessOK,
-				"samples":                       nonEmpty(samples),
-				"explanation":                   "states = symbolic paths completed over all harness instances; transitions = SMT queries discharged (branch feasibility + obligations); every obligation is decided by the solver for all values of the symbolic inputs within the stated bounds",
-				"functions_encoded":             g.funcsEncoded(hs),
-				"harnesses":                     sums,
-				"obligation_sites_discharged":   assertsTotal,
-				"sat":                           totalSat,
-				"unsat":                         totalUnsat,
-				"unknown":                       totalUnk,
-				"solver":                        opts.Solver,
-				"solver_s":                      solverS,
-				"load_and_ssa_build_s":          g.LoadTime.Seconds(),
-				"inconclusive":                  inconclusive,
-				"known_findings_announced":      knownAnnounced,
-				"additional_buffer_sizes":       extraRuns,
-				"reader_buffer_bytes":           g.BufSize,
-				"encoding":                      "regenerated from the working tree on this run: go/packages + go/ssa over " + g.repo + " with harness overlay; QF_BV terms",
+				"samples":                        nonEmpty(samples),
+				"explanation":                    "states = symbolic paths completed over all harness instances; transitions = SMT queries discharged (branch feasibility + obligations); every obligation is decided by the solver for all values of the symbolic inputs within the stated bounds",
+				"functions_encoded":              g.funcsEncoded(hs),
+				"harnesses":                      sums,
+				"obligation_sites_discharged":    assertsTotal,
+				"sat":                            totalSat,
+				"unsat":                          totalUnsat,
+				"unknown":                        totalUnk,
+				"solver":                         opts.Solver,
+				"solver_s":                       solverS,
+				"load_and_ssa_build_s":           g.LoadTime.Seconds(),
+				"inconclusive":                   inconclusive,
+				"known_findings_announced":       knownAnnounced,
+				"additional_buffer_sizes":        extraRuns,
+				"reader_buffer_bytes":            g.BufSize,
+				"encoding":                       "regenerated from the working tree on this run: go/packages + go/ssa over " + g.repo + " with harness overlay; QF_BV terms",
 			},
 			"assumptions": g.assumptions(hs),
 		}
